@@ -187,6 +187,11 @@ impl PutQuery {
     }
 
     fn most_common_error(&self) -> Option<(usize, PutError)> {
+        // 301 and 302 are only meaningful as answers to a mutable put.
+        if !matches!(self.request, PutRequestSpecific::PutMutable(_)) {
+            return None;
+        }
+
         self.errors
             .first()
             .and_then(|(count, error)| match error.code {
